@@ -91,7 +91,7 @@ func covered(kind string, parts []aggPart, listedSigners []string, goodPay []byt
 
 // trueSeats is the oracle's credential check, independent of the verifier's
 // VrfVerifySortition / VrfVerifyPriority: the proof must be a valid VRF proof
-// of the member's key on (seed, step, index) (VRF library), and the seat count
+// of the member's key on the message seed ‖ step ‖ index in the calculator's OWN encoding (refVrfInput; VRF library), and the seat count
 // is the member's TRUE one — what the honest prover path (VrfSortition with the
 // member's secret key, committee size = threshold) yields, whose VRF value must
 // be the one the proof commits to.  ok=false: not a credential for these inputs.
@@ -113,7 +113,7 @@ func (c *Config) trueSeatsIn(view *SetView, rec *Rec, seed common.Hash, index, s
 		}
 		h = v.(common.Hash)
 	} else {
-		hh, err := m.VrfPk.ProofToHash(ucon.MakeM(seed, step, index), proof)
+		hh, err := m.VrfPk.ProofToHash(refVrfInput(seed, step, index), proof) // the calculator's own encoding of the VRF message (vrfinput.go), never ucon.MakeM
 		if err != nil {
 			c.okCache.Store(ck, nil)
 			return 0, false
